@@ -74,7 +74,7 @@ ASSUMPTIONS = ['a freshly constructed object given copies of the same constructo
 def plan(tier):
     if tier == 'thorough':
         return dict(shards=16, cases=100000, timeout=1500, budget_s=600)
-    return dict(shards=8, cases=100000, timeout=400, budget_s=55)
+    return dict(shards=8, cases=100000, timeout=400, budget_s=50)
 
 
 def selftest():
